@@ -286,6 +286,22 @@ def gen_gfa1(rng, k):
             H.append("\t".join(["H"] + t))
     H = _dedupe_header_tags(H)
     Cm = ["# " + rand_comment(rng) for _ in range(rng.randint(0, k.get("max_comment", 1)))]
+    if k.get("p_hairpin_circle", 0) and rng.random() < k["p_hairpin_circle"] and len(spare) >= 2:
+        # a segment with a hairpin link on each end (overlaps that differ from their complements) and a
+        # circular path over both, each step asking for the link as written or for its complement form:
+        # the overlap alone says in which direction such a link is traversed
+        hs, hp = spare.pop(), spare.pop()
+        ova, ovb = rng.sample(["1I2M", "2M1D", "3M1I", "1D1M", "2I1M1D1M"], 2)
+        S.append("S\t%s\t*" % hs)
+        segs.append(hs)
+        L.append("L\t%s\t-\t%s\t+\t%s" % (hs, hs, ova))
+        L.append("L\t%s\t+\t%s\t-\t%s" % (hs, hs, ovb))
+        x = ova if rng.random() < 0.5 else cigar_complement(ova)
+        y = ovb if rng.random() < 0.5 else cigar_complement(ovb)
+        if rng.random() < 0.5:
+            P.append("P\t%s\t%s-,%s+\t%s,%s" % (hp, hs, hs, x, y))
+        else:
+            P.append("P\t%s\t%s+,%s-\t%s,%s" % (hp, hs, hs, y, x))
     lines = H + Cm + S + L + C + P
     return {"version": "gfa1", "lines": lines, "segs": segs, "seglen": seglen}
 
